@@ -48,6 +48,16 @@ def is_err(r):
     return isinstance(r, tuple)
 
 
+_SEEN = {}
+
+
+def report(ctx, stage, what, case, key=None, no_input=False):
+    """ctx.violation, at most 3 replay files per key (one broken formula fails hundreds of generated cases)"""
+    _SEEN[key] = _SEEN.get(key, 0) + 1
+    if _SEEN[key] <= 3:
+        ctx.violation(stage, what, case, key=key, no_input=no_input)
+
+
 def close(a, b, rtol=1e-9, scale=None):
     """C.close (DESIGN 3.4: NaN matches NaN, infinities exact, |a-b| <= rtol*scale) with a per-cell scale"""
     a = np.asarray(a, dtype=float)
@@ -208,7 +218,7 @@ def array_correspondence(ctx, rng, drv):
             ok = same(ri, rm, scale)
         if not ok:
             prop_ok = property_holds(name, kw, ri)
-            ctx.violation("correspondence: %s" % name,
+            report(ctx, "correspondence: %s" % name,
                           "implementation and model disagree on %s%s" % (name, "" if prop_ok is None else (" (property statement %s on this input)" % ("holds" if prop_ok else "FAILS"))),
                           dict(function=name, meta=meta, args={k: (hexl(v) if isinstance(v, np.ndarray) else v) for k, v in kw.items()},
                                impl=(hexl(ri) if not is_err(ri) else list(ri)), model=(hexl(rm) if isinstance(rm, np.ndarray) else rm)),
@@ -357,7 +367,7 @@ def probe_pointwise(ctx, rng):
                 o = np.argsort(kw["field"], kind="stable")
                 mono = bool((np.diff(out[o]) >= 0).all())
             if not ok or not mono:
-                ctx.violation("probe: pointwise cdf identity, %s" % name,
+                report(ctx, "probe: pointwise cdf identity, %s" % name,
                               "%s: F_target(T(x)) differs from Phi((x-mean)/sigma)%s" % (name, "" if mono else " / T not monotone"),
                               dict(function=name, args={k: (hexl(v_) if isinstance(v_, np.ndarray) else v_) for k, v_ in kw.items()},
                                    out=(hexl(out) if not is_err(out) else list(out))), key="pointwise:%s" % name)
@@ -371,7 +381,7 @@ def probe_pointwise(ctx, rng):
             # midpoint rule on the quantile function; the arcsine ppf is smooth, the U-quadratic one has a cube-root
             # singularity at u = 1/2: error of the rule < 1e-5 relative for both at 2e5 nodes
             if abs(np.mean(y) - m) > 1e-5 * (abs(m) + s) or abs(np.mean((y - m) ** 2) - v) > 1e-4 * v:
-                ctx.violation("probe: default bounds preserve mean and variance (%s)" % name,
+                report(ctx, "probe: default bounds preserve mean and variance (%s)" % name,
                               "moments of the %s law on the default bounds differ from the input mean/variance" % name,
                               dict(law=name, mean=m, var=v, a=aa, b=bb, got_mean=float(np.mean(y)), got_var=float(np.mean((y - m) ** 2))),
                               key="default-bounds:%s" % name)
@@ -414,7 +424,7 @@ def probe_ks(ctx, rng):
             d = 1.0 if is_err(out) else ks_distance(out, cdf)
             ctx.count(("ks", name, rep, len(kw)), hist=dict(probe="ks:" + name))
             if not d <= eps:
-                ctx.violation("probe: Kolmogorov distance, %s" % name,
+                report(ctx, "probe: Kolmogorov distance, %s" % name,
                               "%s: distance %.4g of %d transformed normal samples to the documented law exceeds the DKW bound %.4g" % (name, d, n, eps),
                               dict(function=name, n=n, seed=ctx.seed, rep=rep, mean=m, sigma=s,
                                    args={k: v_ for k, v_ in kw.items() if not isinstance(v_, np.ndarray)}, distance=d, bound=eps),
@@ -424,7 +434,7 @@ def probe_ks(ctx, rng):
             out = impl_call(A.array_force_moments, x, tm, tv)
             ctx.count(("moments", rep, tm != 0.0), hist=dict(probe="force_moments"))
             if is_err(out) or not property_holds("array_force_moments", dict(field=x, mean=tm, var=tv), out):
-                ctx.violation("probe: force_moments exact moments", "sample mean/variance after array_force_moments differ from the requested ones",
+                report(ctx, "probe: force_moments exact moments", "sample mean/variance after array_force_moments differ from the requested ones",
                               dict(n=n, seed=ctx.seed, mean=tm, var=tv, got=None if is_err(out) else [float(np.mean(out)), float(np.var(out))]),
                               key="moments:force")
         # discrete 'equal': equal-probability classes; binary-like split at the mean
@@ -438,7 +448,7 @@ def probe_ks(ctx, rng):
                 se = math.sqrt(n * (1.0 / k) * (1 - 1.0 / k))
                 bad = cnt.sum() != n or bool((np.abs(cnt - n / k) > 6.5 * se).any())
             if bad:
-                ctx.violation("probe: discrete 'equal' classes", "classes of array_discrete(thresholds='equal') are not equally likely for normal input",
+                report(ctx, "probe: discrete 'equal' classes", "classes of array_discrete(thresholds='equal') are not equally likely for normal input",
                               dict(n=n, seed=ctx.seed, k=k, counts=None if is_err(out) else cnt.tolist()), key="equal:classes")
 
 
@@ -468,7 +478,7 @@ def probe_partition(ctx, rng):
         ctx.count(("partition", mode, k, n > 1), hist=dict(probe="partition:" + mode))
         ok = (not is_err(out)) and discrete_statement(x, vals, thr, out, m, s * s)
         if not ok:
-            ctx.violation("probe: discrete partition (%s thresholds)" % mode,
+            report(ctx, "probe: discrete partition (%s thresholds)" % mode,
                           "array_discrete%s" % (" raised %s" % out[2] if is_err(out) else " output is not the value of the class thr[i-1] < x <= thr[i]"),
                           dict(mode=mode, field=hexl(x), values=hexl(vals), thresholds=(thr if isinstance(thr, str) else hexl(thr)),
                                thresholds_type=type(thr).__name__, mean=m, var=s * s, out=(list(out) if is_err(out) else hexl(out))),
@@ -664,7 +674,7 @@ def wrapper_correspondence(ctx, rng, drv):
                     state_names = [int(k) for k in names_m]
                     state_rows = [np.array(fld[NAMES[k]], dtype=float).copy() for k in state_names]   # re-synchronise on the implementation
             if not ok:
-                ctx.violation("correspondence: Field.transform('%s')" % mname,
+                report(ctx, "correspondence: Field.transform('%s')" % mname,
                               "Field.transform wrapper and model disagree (returned values / error kind / stored fields)",
                               dict(case, impl=(list(ri) if is_err(ri) else hexl(ri)),
                                    model=(int(rm) if isinstance(rm, (int, np.integer)) else [list(map(int, rm[0])), hexl(rm[2])])),
@@ -735,7 +745,7 @@ def probe_wrappers(ctx, rng):
                 d = ks_distance(w, cdf) if np.isfinite(w).all() else 1.0
             same_stored = (not is_err(out)) and C.bit_equal(fld["t1"], out) and close(fld["field"], stored, rtol=1e-12)
             if not d <= eps or not same_stored:
-                ctx.violation("probe: wrapper Kolmogorov distance, %s" % mname,
+                report(ctx, "probe: wrapper Kolmogorov distance, %s" % mname,
                               "Field.transform('%s', process=%s, keep_mean=%s): distance %.4g to the documented law exceeds the DKW bound %.4g%s"
                               % (mname, process, keep_mean, d, eps, "" if same_stored else " / stored fields wrong"),
                               dict(method=mname, kwargs=kw, process=process, keep_mean=keep_mean, cfg=cfg, n=n, seed=ctx.seed, distance=d, bound=eps,
@@ -746,7 +756,7 @@ def probe_wrappers(ctx, rng):
         ctx.count(("wmoments", process, keep_mean, ncode, trend), hist=dict(probe="wrapper-force_moments"))
         w = None if is_err(out) else normal_space(out)
         if is_err(out) or abs(np.mean(w) - marg) > 1e-8 * (abs(marg) + sd) or abs(np.var(w) - sill) > 1e-8 * sill:
-            ctx.violation("probe: wrapper force_moments", "normal_force_moments does not give the field's mean and the model's sill as sample moments",
+            report(ctx, "probe: wrapper force_moments", "normal_force_moments does not give the field's mean and the model's sill as sample moments",
                           dict(process=process, keep_mean=keep_mean, cfg=cfg, n=n, seed=ctx.seed,
                                got=None if w is None else [float(np.mean(w)), float(np.var(w))], want=[marg, sill],
                                error=(list(out) if is_err(out) else None)), key="wmoments:%s:%s" % (process, keep_mean))
@@ -776,7 +786,7 @@ def probe_wrappers(ctx, rng):
                     cnt = np.array([(near == q).sum() for q in bvs])
                     ok = bool((np.abs(cnt - n / k) <= 6.5 * math.sqrt(n * (1 / k) * (1 - 1 / k))).all())
             if not ok:
-                ctx.violation("probe: wrapper partition (%s)" % mode,
+                report(ctx, "probe: wrapper partition (%s)" % mode,
                               "Field.transform discrete/binary (%s, process=%s, keep_mean=%s)%s" % (
                                   mode, process, keep_mean, " raised %s" % out[2] if is_err(out) else ": output is not the value of the class of the input"),
                               dict(mode=mode, process=process, keep_mean=keep_mean, cfg=cfg, n=n, seed=ctx.seed, thresholds_type=type(bt).__name__,
@@ -794,7 +804,7 @@ def probe_wrappers(ctx, rng):
             a2 = impl_call(f.transform, alias, store=False, process=True, keep_mean=km, **kw)
             ctx.count(("alias", alias, km), hist=dict(probe="dispatch"))
             if is_err(a1) or is_err(a2) or not C.bit_equal(a1, a2):
-                ctx.violation("probe: transform.apply dispatch", "Field.transform('%s') and Field.transform('%s') differ" % (full, alias),
+                report(ctx, "probe: transform.apply dispatch", "Field.transform('%s') and Field.transform('%s') differ" % (full, alias),
                               dict(full=full, alias=alias, keep_mean=km), key="dispatch:%s" % alias)
     for km in (True, False):
         got = impl_call(f.transform, "function", function=lambda d, c: c * d + 1.0, c=0.5, store=False, process=True, keep_mean=km)
@@ -802,12 +812,12 @@ def probe_wrappers(ctx, rng):
         want = np.exp(0.5 * (np.log(np.exp(z5)) - sh5) + 1.0 + sh5) + 0.1 * p5
         ctx.count(("function", km), hist=dict(probe="dispatch"))
         if is_err(got) or not close(got, want, rtol=1e-9, scale=np.abs(want) + 1.0):
-            ctx.violation("probe: apply_function processing", "Field.transform('function', process=True, keep_mean=%s) is not post(f(pre(field)))" % km,
+            report(ctx, "probe: apply_function processing", "Field.transform('function', process=True, keep_mean=%s) is not post(f(pre(field)))" % km,
                           dict(keep_mean=km, got=(list(got) if is_err(got) else hexl(got)), want=hexl(want)), key="dispatch:function")
     got = impl_call(f.transform, "no_such_transformation", store=False)
     ctx.count(("unknown",), hist=dict(probe="dispatch"))
     if not (is_err(got) and got[0] == "err" and got[1] == 1):
-        ctx.violation("probe: transform.apply dispatch", "unknown method name did not raise ValueError", dict(got=str(got)), key="dispatch:unknown")
+        report(ctx, "probe: transform.apply dispatch", "unknown method name did not raise ValueError", dict(got=str(got)), key="dispatch:unknown")
     # _check_for_default_normal: transformations that need the mean/variance refuse non-normal fields when process=False
     model = gs.Gaussian(dim=1, var=1.0)
     guard_cfgs = [("normalizer", dict(normalizer=gs.normalizer.LogNormal())), ("trend", dict(trend=1.0)), ("mean callable", dict(mean=lambda x: x)),
@@ -821,7 +831,7 @@ def probe_wrappers(ctx, rng):
             out = impl_call(f.transform, mname, store=False, **mk)
             ctx.count(("guard", what, mname), hist=dict(probe="guard"))
             if not (is_err(out) and out[0] == "err" and out[1] == 1) or not C.bit_equal(f["field"], np.arange(5.0) + 1):
-                ctx.violation("probe: _check_for_default_normal", "Field.transform('%s') on a field with %s and process=False did not raise ValueError" % (mname, what),
+                report(ctx, "probe: _check_for_default_normal", "Field.transform('%s') on a field with %s and process=False did not raise ValueError" % (mname, what),
                               dict(method=mname, config=what, got=(list(out) if is_err(out) else hexl(out))), key="guard:%s:%s" % (mname, what))
 
 
